@@ -19,7 +19,7 @@ THEOREMS = [
 ]
 ASSUMPTIONS = [
     "proved end to end on the model (XMI, flat fragment): every permutation of the elements of a written document loads, and loads to the same structures, ids, types, feature contents, views (initial view first) and generator values (xmi_load_perm_flat); reference resolution in both loaders depends only on the id-keyed map of the parsed structures; embedded types are created supertypes first whatever the declaration order",
-    "NOT proved: layout independence for documents with array/list features and for the JSON forms (it is checked per run: every layout of a document must load to the same canonical dump, equal to an independent reading of the document and to the model's loader) (partial)",
+    "proved: permutation invariance of loading for XMI and JSON, flat fragment and whole format (xmi_load_perm_*, json_load_perm_*); NOT proved: the id-keyed JSON form and the text-level layout dimensions (checked per run: every layout of a document must load to the same canonical dump, equal to an independent reading of the document and to the model's loader) (partial)",
     "namespace prefixes, attribute order, whitespace/pretty printing, escaping and JSON member order do not exist in the abstract documents of the model: they are lxml's/json's business and are exercised through the independent writer only",
     "JSON documents in the id-keyed object form with a sofa byte array (finding J7) are outside the generators",
 ]
